@@ -5,7 +5,9 @@ package main
 // conversion as the trailing positional field (C10), a struct-typed option that holds a pointer (C15).
 
 import (
+	"os"
 	"sort"
+	"time"
 	"bytes"
 	"fmt"
 	"reflect"
@@ -598,5 +600,105 @@ func checkC12IndirectCollections(c *Ctx, n int) {
 		c.Class(fmt.Sprintf("c12/indirect-collections: write-options=%d", int(bits)))
 		in := map[string]interface{}{"declaration": "P *[]string, M *map[string]int, PP **[]int, L []string; --extra added with AddOption(&[]string)", "argv": argv, "ini_options": int(bits), "written_text": text.String()}
 		c.Check("round-trip-reproduces-value-of-a-pointer-to-a-collection", got == want, "C12:indirect-collections", in, got, want)
+	}
+}
+
+// checkC04AddOptionSmoke: options of every shape added with Group.AddOption — a number with a Default, a required
+// one, a list with choices, a map, a duration with an optional value, a callback — and then everything a program
+// does with a parser: calls that give them, omit them, give a value they refuse; the help, the man page, the INI
+// text, a completion.  Nothing crashes; values are what the line denotes; refusals are typed.
+func checkC04AddOptionSmoke(c *Ctx, n int) {
+	r := c.Rng
+	for i := 0; i < n; i++ {
+		var o struct {
+			Verbose bool `short:"v" long:"verbose" description:"say more"`
+		}
+		var port int
+		var names []string
+		var m map[string]int
+		var d time.Duration
+		var calls []string
+		f := func(s string) { calls = append(calls, s) }
+		p := flags.NewParser(&o, flags.HelpFlag)
+		g := p.Command.Group.Find("Application Options")
+		withDefault := r.Intn(2) == 0
+		po := &flags.Option{LongName: "port", ShortName: 'p', Description: "the port"}
+		if withDefault {
+			po.Default = []string{"80"}
+		}
+		var argv []string
+		wantPort, wantNames, wantMap, wantDur, wantCalls := 0, []string(nil), map[string]int{}, time.Duration(0), []string(nil)
+		if withDefault {
+			wantPort = 80
+		}
+		if r.Intn(2) == 0 {
+			argv = append(argv, "--port=8080")
+			wantPort = 8080
+		}
+		for k := r.Intn(3); k > 0; k-- {
+			v := []string{"a", "b"}[r.Intn(2)]
+			argv = append(argv, "--name", v)
+			wantNames = append(wantNames, v)
+		}
+		if r.Intn(2) == 0 {
+			argv = append(argv, "--map=k:1", "--map=j:2")
+			wantMap = map[string]int{"k": 1, "j": 2}
+		}
+		switch r.Intn(3) {
+		case 0:
+			argv = append(argv, "--dur")
+			wantDur = time.Second
+		case 1:
+			argv = append(argv, "--dur=3m")
+			wantDur = 3 * time.Minute
+		}
+		if r.Intn(2) == 0 {
+			argv = append(argv, "-c", "x")
+			wantCalls = []string{"x"}
+		}
+		bad := r.Intn(4) == 0
+		if bad {
+			argv = append(argv, "--name=z")
+		}
+		var err error
+		var texts int
+		var items int
+		pan := safe(func() {
+			g.AddOption(po, &port)
+			g.AddOption(&flags.Option{LongName: "name", Description: "names", Choices: []string{"a", "b"}}, &names)
+			g.AddOption(&flags.Option{LongName: "map", Description: "a map"}, &m)
+			g.AddOption(&flags.Option{LongName: "dur", Description: "dur", OptionalArgument: true, OptionalValue: []string{"1s"}}, &d)
+			g.AddOption(&flags.Option{ShortName: 'c', Description: "cb"}, f)
+			_, err = p.ParseArgs(argv)
+			var b bytes.Buffer
+			p.WriteHelp(&b)
+			p.WriteManPage(&b)
+			flags.NewIniParser(p).Write(&b, flags.IniIncludeDefaults|flags.IniIncludeComments)
+			texts = b.Len()
+			os.Setenv("GO_FLAGS_COMPLETION", "1")
+			p.CompletionHandler = func(its []flags.Completion) { items = len(its) }
+			p.ParseArgs([]string{"--"})
+			os.Unsetenv("GO_FLAGS_COMPLETION")
+		})
+		os.Unsetenv("GO_FLAGS_COMPLETION")
+		c.R.Evaluations++
+		gotMap := map[string]int{}
+		for k, v := range m {
+			gotMap[k] = v
+		}
+		got := fmt.Sprintf("panic=%v", pan)
+		want := "panic=<nil>"
+		if bad {
+			fe, ok := err.(*flags.Error)
+			got += fmt.Sprintf(" typed=%v", ok && fe.Type == flags.ErrInvalidChoice)
+			want += " typed=true"
+		} else {
+			got += fmt.Sprintf(" err=%v port=%d names=%q map=%v dur=%v calls=%q texts=%v items=%v", err, port, names, gotMap, d, calls, texts > 0, items >= 5)
+			want += fmt.Sprintf(" err=<nil> port=%d names=%q map=%v dur=%v calls=%q texts=true items=true", wantPort, wantNames, wantMap, wantDur, wantCalls)
+		}
+		c.Distinct("c04addoption|" + strings.Join(argv, " ") + fmt.Sprint(withDefault))
+		c.Class(fmt.Sprintf("c04/addoption-smoke: default=%v refused-value=%v", withDefault, bad))
+		in := map[string]interface{}{"declaration": "AddOption: port int (Default 80 or none), name []string (choices a, b), map map[string]int, dur time.Duration (optional value 1s), -c func(string)", "argv": argv}
+		c.Check("options-added-by-the-program-never-crash-the-parser", got == want, "C04:addoption-smoke", in, got, want)
 	}
 }
